@@ -168,6 +168,15 @@ func vScenarioC05(rc *runCtx) {
 	switch extra {
 	case 1:
 		endings = append(endings, "drag-without-trz")
+		// what the shell prints first after the command was typed for the user: plain, or with the colours and
+		// mode switches of a fancy prompt; either way it is shown as printed
+		firstEcho := []byte([]string{"^C\r\n$ t", "\x1b[0m^C\r\n\x1b[01;32muser@host\x1b[00m:\x1b[01;34m~\x1b[00m$ t", "\x1b[?2004l\r^C\r\n\x1b[?2004h$ t"}[tp.Draw("c05.firstecho", 3)])
+		dragFrom := x.term.NSentInt()
+		defer func() {
+			if t, _, _ := x.term.Snapshot(); rc.res.Class != "violation" && dragFrom <= len(t) && !bytes.Contains(t[dragFrom:], firstEcho) {
+				rc.violate("output", "C05:output-altered:after-typed-command", "after the wrapper had typed the upload command for the user, the shell printed %s; the terminal got %s", vQuote(firstEcho, 80), vQuote(t[dragFrom:], 160))
+			}
+		}()
 		w.Go("drag", nil, func() {
 			verifsim.Sleep(1200 * time.Millisecond)
 			x.kbd.Write([]byte(vShellQuote(spec.paths[0]) + " ")) // dropped on the terminal: one read
@@ -178,7 +187,7 @@ func vScenarioC05(rc *runCtx) {
 				}
 				verifsim.Sleep(10 * time.Millisecond)
 			}
-			x.down[0].Write([]byte("^C\r\n$ t"))
+			x.down[0].Write(firstEcho)
 			verifsim.Sleep(5 * time.Millisecond)
 			x.down[0].Write([]byte("rz"))
 			verifsim.Sleep(5 * time.Millisecond)
